@@ -235,8 +235,10 @@ def upd (p : Prog) : Nat → State → Nat → State × Bool
         { n with val := some v, st := .clean, running := false, ver := (if changed then n.ver + 1 else n.ver) }
       if changed then
         let s := s.emit (.changed id)
+        -- the mark phase has its own fuel (`fuelFor p` bounds every subscriber chain): it must not
+        -- depend on the depth `f` of the pull, the real `mark_dirty` / `mark_check` is not depth-limited
         let s := (s.get id).subs.foldl
-          (fun s x => if s.obs == some x then s else markDirty (f + 1) s x) s
+          (fun s x => if s.obs == some x then s else markDirty (fuelFor p) s x) s
         (s, true)
       else (s, false)
     else
